@@ -23,7 +23,8 @@ Record node := mkNode {
 
 Inductive nop :=
 | Open                                  (* factory.buildProtocol(addr) *)
-| Data (c : nat) (d : bytes).           (* connection c: dataReceived(d) *)
+| Data (c : nat) (d : bytes)            (* connection c: dataReceived(d) *)
+| Close (c : nat).                      (* connection c: connectionLost(reason) — `pass` in the code: no effect on the node *)
 
 Definition node0 : node := mkNode [] None [] [].
 
@@ -45,6 +46,7 @@ Definition nstep_gen (feed : bytes -> bytes -> list frame * bytes * status)
         | None => mkNode (upd (bufs st) c r) (hp st) (outs st) (log st ++ map (fun f => (c, f)) hs)
         end
       else st
+  | Close _ => st
   end.
 
 Definition nstep := nstep_gen feed_fix.
